@@ -194,6 +194,17 @@ func hostilePayload(r *hx.Rand, kind int) []byte {
 		return append(key, 0)
 	case 9, 10: // middle fragment (no key)
 		return r.Bytes(r.Range(0, 30))
+	case 12: // long form (1..9 length bytes, 9 is invalid) announcing a small value that is (nearly) complete
+		nb := r.Range(1, 9)
+		v := r.Range(0, 12)
+		p := append(key, byte(0x80|nb))
+		p = append(p, make([]byte, nb-1)...)
+		p = append(p, byte(v))
+		n := v + r.Range(-2, 2)
+		if n < 0 {
+			n = 0
+		}
+		return append(p, r.Bytes(n)...)
 	case 11: // start with expected size reached exactly / overshot
 		v := r.Range(0, 12)
 		return append(append(key, byte(v)), r.Bytes(v+r.Range(-2, 2)+2)...)
